@@ -358,6 +358,14 @@ def run(report, prog, tier):
 
 
 MUTANTS = [
+    ('tt2-terminator-bound-before-skip', 'nfc.tag.tt2', """            while offset in skip_bytes:
+                offset += 1
+            if offset < tag_memory[14] * 8 + 16:
+                tag_memory[offset] = 0xFE""", """            if offset < tag_memory[14] * 8 + 16:
+                while offset in skip_bytes:
+                    offset += 1
+                tag_memory[offset] = 0xFE""", 'C03-R1'),
+    ('tt1-skip-ranges-cut-by-image-length', 'nfc.tag.tt1', "skip_bytes.update(range(*lock_bytes.indices(0x800)))", "skip_bytes.update(range(*lock_bytes.indices(len(tag_memory))))", 'C03-R1'),
     ('tt2-sector-recorded-before-select', 'nfc.tag.tt2', "            sector_select_1 = b'\\xC2\\xFF'\n", "            self._current_sector = sector\n            sector_select_1 = b'\\xC2\\xFF'\n", 'C03-R4'),
     ('tt2-capacity-ignores-reserved-tail', 'nfc.tag.tt2', "capacity = len(set(range(offset, capacity + 16)) - skip_bytes)", "capacity = capacity + 16 - offset - sum(1 for a in skip_bytes if offset <= a < capacity)", 'C03-R4'),
     ('tt1-capacity-counts-reserved', 'nfc.tag.tt1', "capacity = len(set(range(offset, tag_memory_size)) - skip_bytes)", "capacity = tag_memory_size - offset", 'C03-R4'),
